@@ -595,11 +595,18 @@ func (c *Conn) readRecordOrCCS(expectChangeCipherSpec bool) error {
 	}
 
 	// 循环处理数据报中的所有记录（DTLS/DTLCP 允许一个数据报包含多条记录）
+	handLenAtEntry := c.handBuf.Len()
 	for {
 		c.readBuf = nil
 
 		// 如果没有待处理数据，读取一个新的 UDP 数据报
 		if len(c.rawInputBuf) < recordHeaderLen {
+			// 本次调用已经向 handBuf 追加了握手数据（其后同一数据报中的握手记录被丢弃）：
+			// 先交还握手层处理（那里检查消息长度上限），而不是继续读下一个数据报，
+			// 否则 handBuf 可以在一次调用内无限增长。
+			if c.handBuf.Len() > handLenAtEntry {
+				return nil
+			}
 			if err := c.readDatagram(); err != nil {
 				if e, ok := err.(net.Error); !ok || !e.Timeout() {
 					c.in.setErrorLocked(err)
